@@ -25,5 +25,25 @@ ASSUME Blake2Params(FALSE, 32, 16, 1, 1, Z2, Z4, 0, 0, <<>>, <<>>)
 \* is not cheap); instead: the mix with all-zero input is the zero map, both variants
 ASSUME BlakeMix(Z2, Z2, Z2, Z2, Z2, Z2, 16, 12, 8, 7) = <<Z2, Z2, Z2, Z2>>
 ASSUME BlakeMix(Z4, Z4, Z4, Z4, Z4, Z4, 32, 24, 16, 63) = <<Z4, Z4, Z4, Z4>>
+\* padding: the marker-bit position exists in all four variants (447 / 895 message bits spill into a second
+\* block); 446 / 894 bits still fit; byte lengths 55/56 (111/112) are the one-block / two-block boundary
+M200 == Rep(255, 200)
+ASSUME \A size \in {224, 256} : /\ Len(BlakePad(size, M200, 446)) = 64  /\ Len(BlakePad(size, M200, 447)) = 128
+                                /\ Len(BlakePad(size, M200, 8*55)) = 64 /\ Len(BlakePad(size, M200, 8*56)) = 128
+ASSUME \A size \in {384, 512} : /\ Len(BlakePad(size, M200, 894)) = 128  /\ Len(BlakePad(size, M200, 895)) = 256
+                                /\ Len(BlakePad(size, M200, 8*111)) = 128 /\ Len(BlakePad(size, M200, 8*112)) = 256
+\* 224 and 256 (384 and 512) paddings differ exactly in the lowest bit of the byte before the length field
+ASSUME \A L \in {0, 1, 7, 8, 439, 440, 441, 446, 447, 448, 511, 512} :
+         LET p == BlakePad(224, M200, L)  q == BlakePad(256, M200, L)  j == Len(p) - 8 IN
+         /\ Len(p) = Len(q) /\ q[j] = p[j] + 1 /\ (p[j] % 2) = 0
+         /\ \A i \in 1..Len(p) : i # j => p[i] = q[i]
+ASSUME \A L \in {0, 887, 888, 889, 894, 895, 896, 1023, 1024} :
+         LET p == BlakePad(384, M200, L)  q == BlakePad(512, M200, L)  j == Len(p) - 16 IN
+         /\ Len(p) = Len(q) /\ q[j] = p[j] + 1 /\ (p[j] % 2) = 0
+         /\ \A i \in 1..Len(p) : i # j => p[i] = q[i]
+\* counter: bits so far, 0 for a block without message bits
+ASSUME BlakeCtr(256, 512, 0) = <<W32(0, 512), W32(0, 0)>> /\ BlakeCtr(256, 512, 1) = <<W32(0, 0), W32(0, 0)>>
+ASSUME BlakeCtr(256, 513, 1) = <<W32(0, 513), W32(0, 0)>> /\ BlakeCtr(256, 0, 0) = <<W32(0, 0), W32(0, 0)>>
+ASSUME BlakeCtr(512, 895, 0) = <<W64(0, 0, 0, 895), W64(0, 0, 0, 0)>> /\ BlakeCtr(512, 895, 1) = <<W64(0,0,0,0), W64(0,0,0,0)>>
 ASSUME PrintT("ST_BlakeThm ok")
 ====
